@@ -1,5 +1,6 @@
 import TypstyleModel.Props.C07
 import TypstyleModel.Proofs.Monad
+import TypstyleModel.Proofs.Tokens
 /-! C08 — prose is left untouched (printer side).  The line representation of a piece of markup
 loses, duplicates and reorders no node; inside a line a space is printed as one blank (never a break),
 a line ends with exactly its number of line feeds, text leaves are copied, and an expression on a line
@@ -76,7 +77,7 @@ theorem C08_blank_is_one_space (e : Env) (r : Rec) (ctx : Ctx) (mixed : Bool) (d
 
 /-- T8.4: a run of text is copied as one atom. -/
 theorem C08_text_is_copied (e : Env) (r : Rec) (ctx : Ctx) (mixed : Bool) (doc : Twin.Doc) (node : ANode)
-    (h : node.kind = .text) : markupNodeStep e r ctx mixed doc node = pure (doc ++ e.tok node.intoText) := by
+    (h : node.kind = .text) : markupNodeStep e r ctx mixed doc node = pure (doc ++ e.prose node.intoText) := by
   simp [markupNodeStep, h]
 
 /-- T8.3: an expression on a line that also holds text/strong/emph/raw is converted with breaks
@@ -91,5 +92,21 @@ theorem C08_line_ends_with_its_breaks (e : Env) (r : Rec) (ctx : Ctx) (doc : Twi
     markupLineStep e r ctx doc l =
       (do let d ← l.nodes.foldlM (markupNodeStep e r ctx l.mixedText) doc
           pure (if l.breaks > 0 then d ++ Twin.repeatN Twin.hardline l.breaks else d)) := rfl
+
+/-- T8.5 (prose is preserved, by construction): the printer's documents carry the text of their
+prose atoms — every character of markup text, shorthands, smart quotes, escapes, links, labels and
+reference targets — through every builder operation.  If the family printed for a tree passes the
+comparison with the tree's own prose text (`proseCertified`: evaluated on every case of the
+correspondence run, field `prose`), then at **every** width and indent unit the rendered layout
+contains exactly the tree's prose, character for character and in order: no run of text is
+reworded, dropped, duplicated or moved. -/
+theorem C08_prose_preserved (root : Node) (d : Twin.Doc) (h : proseCertified root d = true) (u w : Nat) :
+    proseText (best w 0 [⟨0, .brk, d.fam u⟩]) = (specProse (prepare root)).toList :=
+  certified_prose_best root d h u w
+
+theorem C08_prose_preserved_all_layouts (root : Node) (d : Twin.Doc) (h : proseCertified root d = true)
+    (u : Nat) (m : Mode) (xs : List Atom) (hl : Lay m (d.fam u) xs) :
+    proseText xs = (specProse (prepare root)).toList :=
+  certified_prose root d h u m xs hl
 
 end Typstyle
